@@ -256,6 +256,8 @@ class UnitState:
         self.ctx_analyses = {}
         self.default_contracts = {}
         self.candidates = {}
+        self.private_state = False      # set for decoder units: the state struct is TU-private and zero-initialised (calloc in lha_decoder_new)
+        self._stored_fields = None
         self.use_sym = False
 
     def _upd(self, tab, key, v, thresholds):
@@ -275,6 +277,22 @@ class UnitState:
                 self.used_assumptions.setdefault(a["name"], set()).add((an.fn.name, inst.src_fn(), ptr.region[2]))
                 return a["value"](size)
         return None
+
+    def stored_fields(self):
+        """(struct type, field index) of every scalar struct field that some store instruction of the unit writes directly"""
+        if self._stored_fields is None:
+            out = set()
+            for f in self.mod.defined():
+                for i in f.insts():
+                    if i.op != "store":
+                        continue
+                    d = f.defn(i.ops[1])
+                    while d is not None and not d.is_param and d.op == "bitcast":
+                        d = f.defn(d.ops[0])
+                    if d is not None and not d.is_param and d.op == "getelementptr" and d.steps and d.steps[-1]["k"] == "field":
+                        out.add((d.steps[-1]["struct"], d.steps[-1]["field"]))
+            self._stored_fields = out
+        return self._stored_fields
 
     def commit(self):
         for _, (tab, pend) in self.pending.items():
@@ -658,6 +676,8 @@ class Analysis:
             sty, fidx = region[4]
             fty = self.mod.types[sty]["fields"][fidx]["ty"]
             tab = self.unit.elem if fty.startswith("[") else self.unit.field
+            if not fty.startswith("["):
+                v = self._without_own_value(inst, ptr, v, env)
             self.unit._upd(tab, (sty, fidx), v, self.thresholds)
             cn = (Module.struct_cname(sty), self.mod.field_name(sty, fidx))
             if cn in self.unit.candidates and not fty.startswith("["):
@@ -670,6 +690,52 @@ class Analysis:
             a = self.fn.vals[region[1]]
             if not a.d["alloc_ty"].startswith("[") and not a.d["alloc_ty"].startswith("%"):
                 self.unit._upd(self.unit.alloca_elem, (self.fn.name, region[1], "scalar"), v, self.thresholds)
+
+    def _without_own_value(self, inst, ptr, v, env):
+        """The values a store adds to a scalar field's invariant: when the stored value is a phi (a local copy of the field that is
+        written back, `pos = s->pos; loop { ...; pos = f(pos); } s->pos = pos;`), the incoming that is the field's own loaded value adds
+        nothing new - only the other incomings do.  Without this, a field that is cached in a local could never be bounded: its
+        invariant would have to contain whatever it contained before."""
+        def strip(o):
+            d = self.fn.defn(o)
+            while d is not None and not d.is_param and d.op in ("zext", "sext", "trunc", "bitcast"):
+                o = d.ops[0]
+                d = self.fn.defn(o)
+            return o, d
+        o, d = strip(inst.ops[0])
+        if d is None or d.is_param or d.op != "phi":
+            return v
+        parts, dropped = [], False
+        seen = {d.id}
+        work = list(d.incoming)
+        while work:
+            iv, pb = work.pop()
+            o2, d2 = strip(iv)
+            if d2 is not None and not d2.is_param and d2.op == "phi" and d2.id not in seen and len(seen) < 8:
+                seen.add(d2.id)
+                work.extend(d2.incoming)
+                continue
+            if d2 is not None and not d2.is_param and d2.op == "phi" and d2.id in seen:
+                continue
+            if d2 is not None and not d2.is_param and d2.op == "load":
+                lp = self.lookup(d2.ops[0], env)
+                if isinstance(lp, P) and lp.region == ptr.region and lp.off == ptr.off:
+                    dropped = True
+                    continue
+            x = self.lookup(iv, env)
+            if not isinstance(x, I):
+                return v
+            if o2 is not iv:
+                # value seen through casts: evaluate the phi operand as the store sees it is not possible piecewise; keep the whole value
+                w_from = self.width(self.fn.defn(iv).ty) if self.fn.defn(iv) is not None and not self.fn.defn(iv).is_param else None
+            parts.append(x)
+        if not dropped or not parts:
+            return v
+        acc = parts[0]
+        for x in parts[1:]:
+            acc = acc.join(x)
+        # never claim more than the direct evaluation did
+        return acc.meet(v) if isinstance(v, I) and not acc.meet(v).bot() else acc
 
     def _oblige(self, inst, kind, ptr, width, length=None, length_op=None, ptr_op=None):
         """record the bounds obligation of an access of `width` bytes (or a length interval)"""
